@@ -254,3 +254,69 @@ def who_writes_codes(ck, rule):
     ck.extra["val_writers"] = sorted(writers)
     if n_total < 8:
         raise AnalysisError("only %d writes to .val found (expected >= 8): instance count fell" % n_total)
+
+
+def carrier_types(ck, rule):
+    """C01.R6: the value type returned by the normaliser never narrows the input: ndarray / NumPy-scalar inputs are typed by the Python type of
+    their elements (not their possibly narrow dtype), and `float` is imposed only for None, strings, Decimal and inside the scale/bias block."""
+    prog = ck.prog
+    fm = A.normaliser(prog)
+    vp = [p for p in fm.params if p != "self"][0]
+    from ..paths import enum_paths, walk_path
+    from ..common import infeasible
+    # ---- ndarray arm
+    arm = None
+    for n in ast.walk(fm.node):
+        if isinstance(n, ast.If):
+            ts = _isinstance_types(n.test, vp)
+            if ts and "np.ndarray" in ts:
+                arm = n
+    if arm is None:
+        ck.bad(rule, fm, "the normaliser has an ndarray / NumPy-scalar arm", "no isinstance(val, np.ndarray) arm", fm.node)
+    else:
+        nbad = 0
+        npaths = 0
+        for p in enum_paths(arm.body):
+            pf = walk_path(p)
+            if infeasible(pf) or pf.end == "raise":
+                continue
+            npaths += 1
+            v = pf.env.get("vdtype")
+            if v is None:
+                continue
+            v0 = peel(v)[0]
+            narrow = isinstance(v0, ast.Attribute) and v0.attr == "dtype"
+            if narrow:
+                # str arrays are re-typed below; only flag when the final type is still the raw dtype
+                nbad += 1
+                ck.bad(rule, fm, "array and NumPy-scalar inputs are typed by the Python type of their elements, never by a narrow NumPy dtype", "vdtype = %s" % src(v)[:50], arm,
+                       "float16/float32/int8 inputs would be scaled, rounded and read back in the narrow dtype (carrier-dependent results)")
+                break
+        if not nbad:
+            ck.ok(rule, fm, "ndarray arm: value type is type(val.item(0)) on all %d feasible paths" % npaths)
+    # ---- float imposed only in listed contexts
+    def ctx_ok(chain):
+        for t in chain:
+            txt = src(t)
+            if "is None" in txt and vp in txt:
+                return True
+            if "Decimal" in txt or "np.str_" in txt or "str" in (_isinstance_types(t, vp) or []):
+                return True
+            if "self.scale" in txt or "self.bias" in txt:
+                return True
+        return False
+
+    def walk(stmts, chain):
+        for s in stmts:
+            if isinstance(s, ast.Assign) and any(dotted(t) == "vdtype" for t in s.targets) and dotted(s.value) in ("float", "np.float64", "np.float32"):
+                ck.check(ctx_ok(chain), rule, fm, "the normaliser imposes a float value type only for None, strings, Decimal or after a non-trivial scale/bias map",
+                         "vdtype = %s under %s" % (src(s.value), [src(t)[:40] for t in chain]), s,
+                         "Python integers would be converted to binary64 before scaling: bits beyond the 53-bit mantissa are lost")
+            if isinstance(s, ast.If):
+                walk(s.body, chain + [s.test])
+                walk(s.orelse, chain + [s.test])
+            elif isinstance(s, (ast.For, ast.While, ast.With, ast.Try)):
+                walk(getattr(s, "body", []), chain)
+                for h in getattr(s, "handlers", []):
+                    walk(h.body, chain)
+    walk(fm.node.body, [])
